@@ -99,6 +99,21 @@ def generate(rng, tier):
         if rng.random() < 0.3: pts = [(x, 2 * oy - y) for x, y in pts]
         if rng.random() < 0.3: pts = [(y, x) for x, y in pts]
         cases.append({"kind": "s", "pts": pts, "tol": tol, "family": "near-duplicate-pair"})
+    # the double-precision run on small whole numbers (every product is exact; a quotient is compared with a whole number it can only
+    # equal exactly): vertices exactly one tolerance from chords of length 7, 14, 27, 28, 29, 54 ... (1/49, 1/196, 1/729 are not exact in
+    # binary) and a little inside / outside; judged exactly, like the Fraction runs
+    for _ in range(max(30, n // 8)):
+        L = rng.choice([7, 14, 27, 28, 29, 54, 56, 58, 5, 10, 13, 21, 35]); tol = rng.choice([1, 2, 3])
+        a = rng.randint(1, L - 1); off = rng.choice([tol, tol, tol, tol + 1, tol - 1 if tol > 1 else tol])
+        ox, oy = rng.randint(-20, 20), rng.randint(-20, 20)
+        pts = [(0, 0), (a, off * rng.choice([1, -1])), (L, 0)]
+        if rng.random() < 0.4: pts = pts[:2] + [(min(L - 1, a + rng.randint(1, 3)), off)] + pts[2:]
+        if rng.random() < 0.3: pts = [(-rng.randint(3, 9), rng.randint(-4, 4))] + pts
+        if rng.random() < 0.5: pts = [(y, x) for x, y in pts]
+        if rng.random() < 0.3:          # 3-4-5 and 20-21-29 rotations keep everything whole
+            c5, s5, h5 = rng.choice([(3, 4, 5), (4, 3, 5), (20, 21, 29), (21, 20, 29)])
+            pts = [(c5 * x - s5 * y, s5 * x + c5 * y) for x, y in pts]; tol = tol * h5
+        cases.append({"kind": "s", "pts": [(F(ox + x), F(oy + y)) for x, y in pts], "tol": F(tol), "as_float": True, "family": "float-on-whole-numbers/knife-edge"})
     # float runs (the arithmetic of the code is the double-precision one): long, nearly straight runs with a tiny tolerance - the
     # offsets are a few tolerances, the chord 1e7..1e11 tolerances long - and ordinary drawing-sized float data; judged exactly
     import math
@@ -121,9 +136,10 @@ def run_impl(c):
         ident = {id(o): i for i, o in enumerate(objs)}
         return {"kept": [ident.get(id(o), -1) for o in work]}
     if c["kind"] == "s":
-        objs = [[x, y] for x, y in c["pts"]]           # distinct objects, even for equal points
+        cv = float if c.get("as_float") else (lambda v: v)
+        objs = [[cv(x), cv(y)] for x, y in c["pts"]]           # distinct objects, even for equal points
         work = list(objs)
-        plot_utils.supersample(work, c["tol"])
+        plot_utils.supersample(work, cv(c["tol"]))
         ident = {id(o): i for i, o in enumerate(objs)}
         kept = [ident.get(id(o), -1) for o in work]
         return {"kept": kept}
